@@ -128,11 +128,27 @@ fn scalar_check(orig: &GSpec, got: &DSc, got_exact: Option<&Zw>) -> Result<(), S
             )),
         }
     } else {
-        let (wr, wi) = match orig.scalar_exact() {
-            Some(z) => z.to_c64(),
-            None => orig.scalar_c64(),
+        // magnitudes beyond the range of f64 (|s| up to 2^1150): both sides are scaled by the same
+        // power of two before they are converted (the decoded scalar is available as exact dyadic
+        // coefficients)
+        let shift: i64 = if orig.sqrt2_pow.abs() > 1800 && got_exact.is_some() { (orig.sqrt2_pow / 2) as i64 } else { 0 };
+        let (wr, wi) = if shift != 0 {
+            let mut o2 = orig.clone();
+            o2.sqrt2_pow -= (2 * shift) as i32;
+            match o2.scalar_exact() {
+                Some(z) => z.to_c64(),
+                None => o2.scalar_c64(),
+            }
+        } else {
+            match orig.scalar_exact() {
+                Some(z) => z.to_c64(),
+                None => orig.scalar_c64(),
+            }
         };
-        let (gr, gi) = got.to_c64();
+        let (gr, gi) = match (shift, got_exact) {
+            (0, _) | (_, None) => got.to_c64(),
+            (sh, Some(z)) => Zw { c: z.c.clone(), e: z.e + sh }.to_c64(),
+        };
         let m = (wr * wr + wi * wi).sqrt();
         let dlt = ((wr - gr).powi(2) + (wi - gi).powi(2)).sqrt();
         if dlt <= 1e-9 * m.max(1e-300) {
@@ -325,6 +341,37 @@ impl C13 {
                         Caught::Budget => {}
                     }
                 }
+                // second generation: a decoded diagram is a diagram like any other - exporting IT again
+                // and importing that must still give the original (the decoder leaves its own marks
+                // on a graph: another numbering, an 'approximate' flag on the scalar, ...)
+                if ctx.out.violations.is_empty() && sc.pre == 1 {
+                    ctx.out.probe("second_generation_round_trip");
+                    let core = Core::new(dec, 1);
+                    let t2 = text.clone();
+                    let (hb1, hb2) = (sc.decode_hash_backend, sc.hash_backend);
+                    let (res, core) = with_sim(core, move || -> Result<Dg, String> {
+                        let again = if hb1 {
+                            let g1 = quizx::json::decode_graph::<quizx::hash_graph::Graph>(&t2).map_err(|e| e.to_string())?;
+                            quizx::json::encode_graph(&g1).map_err(|e| e.to_string())?
+                        } else {
+                            let g1 = quizx::json::decode_graph::<quizx::vec_graph::Graph>(&t2).map_err(|e| e.to_string())?;
+                            quizx::json::encode_graph(&g1).map_err(|e| e.to_string())?
+                        };
+                        decode_any(&again, hb2)
+                    });
+                    dec = core.dec;
+                    ctx.out.steps += 3;
+                    match res {
+                        Caught::Ok(Ok(d3)) => {
+                            ctx.judge_dg(d3, "second_generation");
+                        }
+                        Caught::Ok(Err(e)) => ctx.out.violations.push(Violation::new("decode_failed", format!("second generation (decode, encode, decode): {e}")).with("form", "second_generation")),
+                        Caught::Panic(m) => ctx.out.violations.push(
+                            Violation::new("panic", format!("second generation (decode, encode, decode): {m}")).with("where", "second_generation").with("msg", super::c18::norm_msg(&m)),
+                        ),
+                        Caught::Budget => {}
+                    }
+                }
                 // oracle-free: decodes under different hash orders are isomorphic to each other
                 for i in 1..decs.len() {
                     let exact = |a: &DV, b: &DV| a.ty == b.ty && a.qubit == b.qubit && a.row == b.row && (a.ty == VT::B || (a.num == b.num && a.den == b.den));
@@ -334,7 +381,13 @@ impl C13 {
                             format!("two decodes of the same text under different hash orders are not isomorphic: {why}"),
                         ));
                     }
-                    if decs[0].scalar != decs[i].scalar {
+                    // (compared through the exact dyadic coefficients: beyond 2^1024 the float view of
+                    // a scalar is inf / NaN, and NaN != NaN)
+                    let differ = match (&decs[0].scalar_dyadic, &decs[i].scalar_dyadic) {
+                        (Some(a), Some(b)) => a != b,
+                        _ => decs[0].scalar != decs[i].scalar,
+                    };
+                    if differ {
                         ctx.out.violations.push(Violation::new(
                             "decodes_differ_between_hash_orders",
                             "two decodes of the same text carry different scalars".to_string(),
